@@ -3,51 +3,74 @@
 (* of named user types, registered by AddType in some order; Check() then walks    *)
 (* the registered types.  Every place where the implementation ranges over a Go    *)
 (* map is an explicit nondeterministic choice here (Iteration = "map"): when two   *)
-(* registered types are defective, either may be reported.  With                   *)
-(* Iteration = "sorted" the walk is by name and the verdict is a function of the   *)
-(* project alone (Confluent).  TLC lists, for the harness, every (root, type set,  *)
-(* registration order) and marks the order-sensitive configurations, where the     *)
-(* repetition-based sampling of the real code is concentrated.                     *)
+(* defects are present - in two registered types, or in two places of one type     *)
+(* (each `@a | @b` choice and each `or` rule-set is an internal type of its own,   *)
+(* kept in the same map) - either may be reported.  With Iteration = "sorted" the  *)
+(* walk is by name and, inside a type, in source order, and the verdict is a       *)
+(* function of the project alone (Confluent).                                      *)
+(* The objects of a project may be used again (Reuse): the same type objects       *)
+(* registered on a second root with the same text, or checked on their own before  *)
+(* being registered.  The answer of the second use is the answer of the first      *)
+(* (Repeatable): compiling a project must not consume anything of its objects.     *)
+(* TLC lists, for the harness, every (root, type set, registration order, reuse)   *)
+(* and marks the order-sensitive configurations, where the repetition-based        *)
+(* sampling of the real code is concentrated.                                      *)
 EXTENDS Integers, Sequences, FiniteSets, TLC, Json
 
 CONSTANTS Iteration,      \* "map" | "sorted"
           MaxTypes
 
-\* catalogue of registered types: name |-> what is wrong with it
-TypeCat == [a |-> "ok", b |-> "ok", v |-> "value", w |-> "value", m |-> "missing-ref", r |-> "bad-rule"]
+\* catalogue of registered types: name |-> the defects it has, in source order
+TypeCat == [a |-> <<>>, b |-> <<>>, h |-> <<>>,
+            v |-> <<"value">>, w |-> <<"value">>, m |-> <<"missing-ref">>, r |-> <<"bad-rule">>,
+            c |-> <<"missing-in-choice", "missing-in-choice">>,       \* two `@x | @y` properties, nothing registered
+            o |-> <<"missing-in-or", "value-in-or">>,                  \* two `or` rule-sets, each with its own defect
+            x |-> <<"value", "value">>,                                \* two properties whose examples break their rules
+            g |-> <<"inherits-non-object">>]                           \* allOf of a scalar type: refused while merging
 TypeIds == DOMAIN TypeCat
-Roots == {"plain", "refs-a", "refs-all"}        \* root mentions no type / @a / every registered name
+\* root mentions no type / @a / every registered name / has two defective choices of its own
+Roots == {"plain", "refs-a", "refs-all", "two-choices"}
+RootDefects == [rt \in Roots |-> IF rt = "two-choices" THEN <<"missing-in-choice", "missing-in-choice">> ELSE <<>>]
+Reuses == {"fresh", "second-root", "prechecked"}
 
-VARIABLES root, order, done, verdict
-vars == <<root, order, done, verdict>>
+VARIABLES root, order, done, verdict, reuse, verdict2
+vars == <<root, order, done, verdict, reuse, verdict2>>
 Range(s) == {s[i] : i \in 1..Len(s)}
 
-Init == root \in Roots /\ order = <<>> /\ done = FALSE /\ verdict = "none"
+Init == root \in Roots /\ order = <<>> /\ done = FALSE /\ verdict = "none" /\ reuse \in Reuses /\ verdict2 = "none"
 
 Register(t) == /\ ~done /\ t \notin Range(order) /\ Len(order) < MaxTypes
-               /\ order' = Append(order, t) /\ UNCHANGED <<root, done, verdict>>
+               /\ order' = Append(order, t) /\ UNCHANGED <<root, done, verdict, reuse, verdict2>>
 
-Broken(S) == {t \in S : TypeCat[t] # "ok"}
-\* total order on names used by the sorted walk
-Rank == [a |-> 1, b |-> 2, m |-> 3, r |-> 4, v |-> 5, w |-> 6]
+Broken(S) == {t \in S : TypeCat[t] # <<>>}
+\* total order on names used by the sorted walk (internal types of the root come first)
+Rank == [a |-> 1, b |-> 2, c |-> 3, g |-> 4, h |-> 5, m |-> 6, o |-> 7, r |-> 8, v |-> 9, w |-> 10, x |-> 11]
 Least(S) == CHOOSE t \in S : \A u \in S : Rank[t] <= Rank[u]
+Place(t, i) == <<t, i>>
 
-\* AddType of a type with a bad rule fails at registration; the others are found by Check()
-Canon(S) == IF Broken(S) = {} THEN "accepted" ELSE Least(Broken(S))
+\* the answer of a project: the first defect of the root, else the first defect of the least defective type
+Canon(S) == IF RootDefects[root] # <<>> THEN Place("root", 1)
+            ELSE IF Broken(S) = {} THEN Place("accepted", 0) ELSE Place(Least(Broken(S)), 1)
+\* the answers a map-ordered walk may give: any defect of the root or of any type
+AnyOf(S) == {Place("root", i) : i \in 1..Len(RootDefects[root])} \cup
+          UNION {{Place(t, i) : i \in 1..Len(TypeCat[t])} : t \in Broken(S)}
+
+Answer(S) == IF AnyOf(S) = {} THEN {Place("accepted", 0)}
+             ELSE IF Iteration = "sorted" THEN {Canon(S)} ELSE AnyOf(S)
 
 Check == /\ ~done /\ done' = TRUE
-         /\ LET S == Range(order) IN
-            IF Broken(S) = {} THEN verdict' = "accepted"
-            ELSE IF Iteration = "sorted" THEN verdict' = Least(Broken(S))
-            ELSE verdict' \in Broken(S)                 \* map iteration: any defective type may come first
-         /\ UNCHANGED <<root, order>>
+         /\ verdict' \in Answer(Range(order))
+         \* the second use of the same objects answers like a first use of equal objects
+         /\ verdict2' \in (IF reuse = "fresh" THEN {"none"} ELSE Answer(Range(order)))
+         /\ UNCHANGED <<root, order, reuse>>
 
 Next == (\E t \in TypeIds : Register(t)) \/ Check
 Spec == Init /\ [][Next]_vars
 
 \* the verdict is a function of (root, set of types): independent of registration order and of iteration order
 Confluent == done => verdict = Canon(Range(order))
-Sensitive == Cardinality(Broken(Range(order))) >= 2
+Repeatable == (done /\ reuse # "fresh") => verdict2 = verdict
+Sensitive == Cardinality(AnyOf(Range(order))) >= 2
 
-Emit == done => PrintT(ToJson([root |-> root, order |-> order, sensitive |-> Sensitive]))
+Emit == done => PrintT(ToJson([root |-> root, order |-> order, sensitive |-> Sensitive, reuse |-> reuse]))
 ===============================================================================
